@@ -57,7 +57,7 @@ def same(x, y):
 
 class C20(Prop):
     id = "C20"
-    theorems = []
+    theorems = ["sim_store", "load_store", "ondisk_read_eq_take", "ncPut_spec", "ncPut_length", "ondisk_write_eq_put", "ondisk_write_error", "ondisk_history", "ondisk_history_read", "writeRecord_append"]
     rule = ("files written through dimarray (vendored netCDF4 stand-in): a variable of rank 0-3 with int/float/str labels in any "
             "order is read through the on-disk handle - open_nc(f)[name][idx], .ix / .loc / .sel / .isel, read_nc(f, name, "
             "indices=, indexing=, tol=) - with every index form of C01/C02 (scalars, lists, masks, slices, dicts, tolerance) in "
